@@ -15,3 +15,32 @@ pub use intermediate_representation as ir;
 pub use program_library::*;
 pub use static_single_assignment as ssa;
 pub use utils::*;
+
+/// Verification hooks, compiled only with `--features verif`: a pass budget that stands
+/// in for the wall-clock time box of value and degree propagation, so that a check can
+/// stop the propagation after any number of passes.
+#[cfg(feature = "verif")]
+pub mod verif_hooks {
+    use std::sync::atomic::{AtomicIsize, Ordering};
+
+    static PASS_BUDGET: AtomicIsize = AtomicIsize::new(-1);
+
+    /// Allow `n` more propagation passes (over both propagation loops); negative = unlimited.
+    pub fn set_pass_budget(n: isize) {
+        PASS_BUDGET.store(n, Ordering::SeqCst);
+    }
+
+    /// Called after each pass: consumes one unit and reports whether the budget is spent.
+    pub(crate) fn pass_budget_spent() -> bool {
+        let b = PASS_BUDGET.load(Ordering::SeqCst);
+        if b < 0 {
+            false
+        } else if b <= 1 {
+            PASS_BUDGET.store(0, Ordering::SeqCst);
+            true
+        } else {
+            PASS_BUDGET.store(b - 1, Ordering::SeqCst);
+            false
+        }
+    }
+}
